@@ -15,7 +15,20 @@ WHOLE = ('_config_str', 'operative_config_str', 'singleton_value', '_is_literall
 SHARED_RE = re.compile(r'^_(OPERATIVE_CONFIG|SINGLETON)')
 
 
+_LINES = {}
+
+
 def preemption_lines(path):
+  """the preemption lines of the file at `path` (computed once per content of the file and process)"""
+  st = os.stat(path)
+  key = (path, st.st_mtime_ns, st.st_size)
+  if key not in _LINES:
+    _LINES.clear()
+    _LINES[key] = frozenset(_preemption_lines(path))
+  return _LINES[key]
+
+
+def _preemption_lines(path):
   """lines of config.py at which a worker can be preempted, found from the AST of the current file: every statement
   of every function that mentions a shared record (the operative record, the singleton cache, their locks under
   whatever name), and of the serialiser functions, which iterate the record through a parameter"""
